@@ -15,6 +15,8 @@ fn interleave(text: &str, mode: u8) -> String {
             1 if i % 5 == 4 => out.push('-'),
             2 if i % 7 == 6 => out.push_str("\n "),
             3 => out.push(['.', ' ', '_', '/', '+', '=', '\t'][i % 7]),
+            // control characters and other ASCII that is neither alphanumeric, blank nor common punctuation
+            4 => out.push(['\u{0}', '\u{7f}', '\u{b}', '\u{1}', '~', '|', '\u{1f}'][i % 7]),
             _ => {}
         }
     }
